@@ -345,6 +345,8 @@ pub struct MethodInfo {
     pub ret: Ty,
     /// a query that can panic: its Lean function returns `Option ret`
     pub partial: bool,
+    /// takes `self` by value
+    pub consumes: bool,
 }
 
 pub struct StructInfo {
@@ -1638,7 +1640,10 @@ impl<'a> Fx<'a> {
         if mi.effectful {
             let t = self.fresh("t");
             self.emit(format!("let {} ← {}{}.{} {} {}", t, si.prefix, si.name, mname, cur, a.join(" ")));
-            self.write_place(&pl, &format!("{}.1", t))?;
+            // a pattern-bound value consumed by the call (`if let Some(o) = cell.take() { o.error(err) }`): gone
+            if !(mi.consumes && !pl.root_self && pl.path.is_empty() && !self.payload_of.contains_key(&pl.local)) {
+                self.write_place(&pl, &format!("{}.1", t))?;
+            }
             self.emit(format!("out := out ++ {}.2", t));
             Ok("()".into())
         } else if mi.partial {
@@ -1678,6 +1683,16 @@ impl<'a> Fx<'a> {
                 return self.struct_call(si, &name, &m.receiver, &args);
             }
             return bail("the slot observer (RcObserver) is not available in this module");
+        }
+        // a shared cell holding a translated observer, used as an observer (`RcObserver@X`)
+        if let Some(Ty::Opt(inner)) = &rt {
+            if let Ty::Named(x) = &**inner {
+                if matches!((name.as_str(), nargs), ("next", 1) | ("error", 1) | ("complete", 0) | ("is_finished", 0)) {
+                    if let Some(si) = self.ctx.structs.get(&format!("Slot{}", x)) {
+                        return self.struct_call(si, &name, &m.receiver, &args);
+                    }
+                }
+            }
         }
         // a cell holding an optional subscription (blanket impl of src/subscription.rs)
         if rt == Some(Ty::Opt(Box::new(Ty::Sub))) && matches!((name.as_str(), nargs), ("unsubscribe", 0) | ("is_closed", 0)) {
@@ -2422,6 +2437,96 @@ pub fn translate_task_fn(items: &[Item], fname: &str, obs: &str, fields: &[&str]
     Ok(d)
 }
 
+/// A tick function of a repeating task (`fn emit_buffer(observer: &mut RcBufferObserver<..>, _seq: usize) -> bool`):
+/// a function on the cell it is given (the translated slot `obs`), returning the new cell, the output and the
+/// verdict "keep repeating".
+pub fn translate_tick_fn(items: &[Item], fname: &str, obs: &str, ctx: &Ctx) -> Res<String> {
+    let f = items
+        .iter()
+        .find_map(|i| match i {
+            Item::Fn(f) if f.sig.ident == fname => Some(f),
+            _ => None,
+        })
+        .ok_or(format!("fn {} not found", fname))?;
+    let si = ctx.structs.get(obs).ok_or(format!("struct {} not translated", obs))?;
+    let mut aliases = HashMap::new();
+    let mut locals = HashMap::new();
+    for (k, a) in f.sig.inputs.iter().enumerate() {
+        if let FnArg::Typed(pt) = a {
+            if let Pat::Ident(pi) = &*pt.pat {
+                let n = ident(&pi.ident.to_string());
+                if k == 0 {
+                    aliases.insert(n, Place { root_self: true, local: String::new(), path: vec![] });
+                } else {
+                    locals.insert(n, Ty::Nat);
+                }
+            }
+        }
+    }
+    let mut fx = Fx {
+        strukt: si,
+        ctx,
+        lines: vec![],
+        ind: 1,
+        tmp: 0,
+        locals,
+        aliases,
+        effectful: true,
+        newtype: false,
+        payload_of: HashMap::new(),
+        extra: vec![],
+        fname: format!("tick_{}", fname),
+    };
+    fn tail(fx: &mut Fx, e: &Expr) -> Res<()> {
+        match e {
+            Expr::If(i) if !matches!(&*i.cond, Expr::Let(_)) => {
+                let c = fx.expr(&i.cond)?;
+                fx.emit(format!("if {} then", c));
+                fx.ind += 1;
+                tail_block(fx, &i.then_branch)?;
+                fx.ind -= 1;
+                match &i.else_branch {
+                    Some((_, eb)) => {
+                        fx.emit("else");
+                        fx.ind += 1;
+                        tail(fx, eb)?;
+                        fx.ind -= 1;
+                        Ok(())
+                    }
+                    None => bail("a value-producing `if` without else"),
+                }
+            }
+            Expr::Block(b) => tail_block(fx, &b.block),
+            _ => {
+                let v = fx.expr(e)?;
+                fx.emit(format!("ret := {}", v));
+                Ok(())
+            }
+        }
+    }
+    fn tail_block(fx: &mut Fx, b: &Block) -> Res<()> {
+        let n = b.stmts.len();
+        for (k, st) in b.stmts.iter().enumerate() {
+            match st {
+                Stmt::Expr(e, None) if k + 1 == n => return tail(fx, e),
+                _ => fx.stmt(st)?,
+            }
+        }
+        bail("a block without a value")
+    }
+    tail_block(&mut fx, &f.block).map_err(|e| format!("tick fn {}: {}", fname, e))?;
+    let mut d = format!(
+        "def {}.tick_{} (self0 : {}) (down : Bool) : Option ({} × Rs.Out × Bool) := do\n  let mut self_ := self0\n  let mut out : Rs.Out := []\n  let mut ret : Bool := false\n",
+        obs, fname, obs, obs
+    );
+    for l in fx.lines {
+        d += &l;
+        d.push('\n');
+    }
+    d += "  return (self_, out, ret)\n\n";
+    Ok(d)
+}
+
 /// A struct without translated methods (the content of a shared cell, e.g. `ObserverData` of merge_all).
 pub fn translate_plain_struct(items: &[Item], name: &str, ctx: &mut Ctx, hints: &HashMap<String, Ty>) -> Res<String> {
     let st = find_struct(items, name).ok_or(format!("struct {} not found", name))?;
@@ -2451,8 +2556,26 @@ pub fn translate_plain_struct(items: &[Item], name: &str, ctx: &mut Ctx, hints: 
 
 /// Translate one observer struct with its `impl Observer` and inherent helper methods.
 pub fn translate_observer(items: &[Item], name: &str, ctx: &mut Ctx, hints: &HashMap<String, Ty>) -> Res<String> {
-    let pseudo = name == "RcObserver";
-    let impls = impls_of(items, name);
+    // `RcObserver@X`: the slot observer (`impl_rc_observer!`) instantiated over the translated struct `X`
+    // (`MutArc<Option<BufferObserver<..>>>` used as an observer); its Lean name is `SlotX`
+    let (slot_over, lean_name): (Option<String>, String) = match name.strip_prefix("RcObserver@") {
+        Some(x) => (Some(x.to_string()), format!("Slot{}", x)),
+        None => (None, name.to_string()),
+    };
+    let src_name = if slot_over.is_some() { "RcObserver" } else { name };
+    let name: &str = &lean_name;
+    let mut hints_owned: HashMap<String, Ty> = hints.clone();
+    let pseudo = src_name == "RcObserver";
+    let impls = impls_of(items, src_name);
+    if let (Some(x), Some(im)) = (&slot_over, impls.first()) {
+        // the observer parameter of the macro's impl (`impl<Item, Err, O> Observer<Item, Err> for $rc<Option<O>>`)
+        if let Some((_, a, _)) = impl_target(&im.self_ty) {
+            if let Some(Type::Path(tp)) = a.first() {
+                hints_owned.insert(last_seg(&tp.path), Ty::Named(x.clone()));
+            }
+        }
+    }
+    let hints = &hints_owned;
     let obs_impl = impls
         .iter()
         .find(|im| matches!(&im.trait_, Some(tr) if TRAITS.contains(&last_seg(&tr.0).as_str())))
@@ -2478,7 +2601,9 @@ pub fn translate_observer(items: &[Item], name: &str, ctx: &mut Ctx, hints: &Has
     let mut cells: Vec<String> = vec![];
     let mut root_ty: Option<Ty> = None;
     let mut newtype = false;
-    if pseudo {
+    if let Some(x) = &slot_over {
+        root_ty = Some(Ty::Opt(Box::new(Ty::Named(x.clone()))));
+    } else if pseudo {
         root_ty = Some(Ty::Opt(Box::new(Ty::Obs)));
     } else if name == "RcSubscription" {
         // `impl<T, S> Subscription for T where T: RcDerefMut<Target = Option<S>>, S: Subscription`: a cell holding
@@ -2596,7 +2721,7 @@ pub fn translate_observer(items: &[Item], name: &str, ctx: &mut Ctx, hints: &Has
         }
         info.methods.insert(
             fname.clone(),
-            MethodInfo { effectful: !has_ret, params: params.clone(), needs_closed, needs_down, needs_pub: subscribe, needs_grp: body_txt.contains("or_insert_with"), needs_handle: body_txt.contains(". schedule ("), ret: ret.clone(), partial: false },
+            MethodInfo { effectful: !has_ret, params: params.clone(), needs_closed, needs_down, needs_pub: subscribe, needs_grp: body_txt.contains("or_insert_with"), needs_handle: body_txt.contains(". schedule ("), ret: ret.clone(), partial: false, consumes: matches!(recv, Some(FnArg::Receiver(r)) if matches!(&r.kind, syn::ReceiverKind::Value)) },
         );
         sigs.push((fname, params, !has_ret));
     }
@@ -3442,7 +3567,7 @@ fn main() {
             // the slot observer
             if ent.imports.contains(&"RcObserver") {
                 let mut methods = HashMap::new();
-                let mi = |e: bool, ps: Vec<(String, Ty)>| MethodInfo { effectful: e, params: ps, needs_closed: false, needs_down: !e, needs_pub: false, needs_grp: false, needs_handle: false, ret: Ty::Bool, partial: false };
+                let mi = |e: bool, ps: Vec<(String, Ty)>| MethodInfo { effectful: e, params: ps, needs_closed: false, needs_down: !e, needs_pub: false, needs_grp: false, needs_handle: false, ret: Ty::Bool, partial: false, consumes: false };
                 methods.insert("next".to_string(), mi(true, vec![("value".into(), Ty::Val)]));
                 methods.insert("error".to_string(), mi(true, vec![("err".into(), Ty::Err)]));
                 methods.insert("complete".to_string(), mi(true, vec![]));
@@ -3513,6 +3638,16 @@ fn main() {
                         failed += 1;
                         eprintln!("{}: task {}: {}", ent.file, tf, e);
                         writeln!(lean, "-- TRANSLATION FAILED for task fn {}: {}\n", tf, e.replace('\n', " ")).unwrap();
+                    }
+                }
+            }
+            for (tf, tobs) in ent.ticks {
+                match translate_tick_fn(&items, tf, tobs, &ctx) {
+                    Ok(s) => lean += &s,
+                    Err(e) => {
+                        failed += 1;
+                        eprintln!("{}: tick {}: {}", ent.file, tf, e);
+                        writeln!(lean, "-- TRANSLATION FAILED for tick fn {}: {}\n", tf, e.replace('\n', " ")).unwrap();
                     }
                 }
             }
